@@ -13,7 +13,8 @@ IMPORTS = {
              'boundary change the records read back from what was written'),
             ('C15', None, 'writer and reader derive the newline / BOM of a section from these tables: for the affected encodings the content '
              'read back differs from the content written')],
-    'C02': [('C09', ('C09-R1a', 'C09-R1b'), 'a call order the specification forbids is accepted, so the bytes written are not a conformant file'),
+    'C02': [('C09', ('C09-R1a', 'C09-R1b', 'C09-R2'), 'a call order the specification forbids is accepted - directly, or because a rejected call left '
+             'the writer in a state its order validation then trusts - so the bytes written are not a conformant file'),
             ('C06', ('C06-R4',), 'serialising a tree changes it: the second serialisation of the same tree is no longer the canonical form of '
              'what the caller built')],
     'C03': [('C17', None, 'every header line is taken through the read-ahead helper: for files whose lines straddle a chunk boundary the '
@@ -26,9 +27,13 @@ IMPORTS = {
     'C05': [('C15', None, 'the written section and its re-parse derive newline / BOM from these tables: for the affected encodings the '
              'parsed tree differs from the written one'),
             ('C16', None, 'indentation is added and removed per line of split_lines: content differs after the cycle'),
+            ('C03', ('C03-R2', 'C03-R3'), 'the parse half of the cycle: content kinds (text decoded with the section encoding, diffs kept '
+             'as bytes) and indentation removed per line of the section newline - otherwise the parsed content differs from what was written'),
             ('C06', ('C06-R4', 'C06-R3c'), 'serialising changes the tree that the parsed result is compared with / metadata is not written '
              'as ASCII-escaped JSON, so in encodings that cannot carry a character faithfully the parsed metadata differs')],
-    'C06': [('C15', None, 'parse and re-serialisation derive newline / BOM from these tables: the bytes differ after the cycle for the '
+    'C06': [('C03', ('C03-R2', 'C03-R3'), 'the parse half of the cycle: content kinds (text decoded with the section encoding, diffs kept '
+             'as bytes) and indentation removed per line of the section newline - otherwise re-serialising does not give the bytes back'),
+            ('C15', None, 'parse and re-serialisation derive newline / BOM from these tables: the bytes differ after the cycle for the '
              'affected encodings'),
             ('C16', None, 'indentation is removed and re-added per line of split_lines: the bytes differ after the cycle')],
     'C08': [('C17', ('C17-R3', 'C17-R7'), 'end of input and over-long lines must be told apart by the read-ahead helper: otherwise input is '
@@ -41,6 +46,8 @@ IMPORTS = {
              'delivered differ')],
     'C13': [('C14', None, 'the statistics are the totals of the hunk parser: wrong geometry / totals / tolerated garbage give wrong counts'),
             ('C16', None, 'the hunk parser is fed the lines of split_lines: lost or fabricated lines change the counts')],
+    'C15': [('C03', ('C03-R3',), 'indentation must be removed per line of the split on the codec\'s own newline: a pattern applied to the '
+             'whole content takes the raw byte 0x0A for a line start, which is not the newline of UTF-16/32 or EBCDIC codecs')],
     'C19': [('C06', ('C06-R4',), 'serialising a tree edits its options: typed attributes read afterwards, and equality with an equal tree '
              'that was not serialised, change')],
 }
